@@ -692,6 +692,15 @@ def run_S5(cx, job):
                 lambda: P.Rules.load(yaml.safe_dump({'p': v, 'z': 'x:y'})), vr,
                 sig(v))
             _file_route(cx, yaml.safe_dump({'p': v, 'q': 'role:a'}), sig(v))
+            # the value as the check string of a registered default ...
+            _value_must_not_allow(
+                cx, 'S5', 'rule-default',
+                lambda: P.Rules({'p': P.RuleDefault('p', v).check}), vr,
+                sig(v))
+            # ... and in a policy file under the DEPRECATED name of a
+            # renamed policy (the override is carried over to the new name)
+            _file_route(cx, yaml.safe_dump({'p:old': v, 'q': 'role:a'}),
+                        sig(v), renamed=True)
         cx.acc.sample('S5', v)
     if job['shard'] == 0:
         for sp in YAML_SPELLINGS:
@@ -721,13 +730,20 @@ def run_S5(cx, job):
             cx.acc.outcome('allows')
 
 
-def _file_route(cx, text, value_repr):
+def _file_route(cx, text, value_repr, renamed=False):
     """The same document as the policy file of a file-backed Enforcer."""
     w = world.FileWorld()
     try:
         w.write('policy.yaml', text)
         conf = world.new_conf(w.root, policy_dirs=[])
         enf = cx.policy.Enforcer(conf)
+        if renamed:
+            P = cx.policy
+            enf.suppress_deprecation_warnings = True
+            enf.register_default(P.RuleDefault(
+                'p', '!', deprecated_rule=P.DeprecatedRule(
+                    'p:old', '!', deprecated_reason='r',
+                    deprecated_since='s')))
         cx.acc.case('S5', True)
         try:
             enf.load_rules()
